@@ -1,14 +1,15 @@
 (* C04 -- Fuzzy ranking quality.
-   Proved so far: the candidate search behind one-character needles and substring matching returns the
+   Proved: the candidate search behind one-character needles and substring matching returns the
    leftmost candidate with the maximal bonus (C04_best_pos) and its early exit is sound because no bonus
    exceeds Config::max_bonus (C04_max_bonus) - the clause that was false under the path configuration
    before the fix; the prefix bonus of the linear scorers lies in [0, 8] (C04_prefix_linear).
    C04_upper: the optimal matcher's score never exceeds the maximum of the scheme over all alignments
    (the DP is NOT always optimal: "aaaAba"/"aba" scores 67 while [3;4;5] scores 68 - consistent with the
    property); C04_single: for a one-character needle it equals that maximum.
-   PARTIAL: "never below the naive two-matrix recurrence" (Spec/Matching.naive_score) and the DP's
-   prefix-preference bounds are validated by the oracle (naive recurrence on every case inside the
-   documented limits; every input run with prefer_prefix off and on), not proved. *)
+   C04_recurrence: on the matrix path the score is never below the documented two-matrix recurrence evaluated
+   naively over the whole haystack (Proofs/RecurrenceFacts.v).  The prefix-preference bounds are proved
+   outside known finding K2 (C04_prefix_outside_K2) and refuted inside it (C04_prefix_refuted).  Nothing in
+   this file is validated only by the oracle. *)
 From Coq Require Import NArith List Bool.
 From NV Require Import Model.Matcher Spec.Matching Spec.Statements Proofs.C05Facts Proofs.ScoreFacts Proofs.DPSingle Proofs.DPScoreFacts Proofs.PrefixFacts Proofs.RecurrenceFacts.
 Import ListNotations.
